@@ -22,6 +22,7 @@ import (
 
 	"cosmossdk.io/log"
 	sdkmath "cosmossdk.io/math"
+	storetypes "cosmossdk.io/store/types"
 	"github.com/cometbft/cometbft/crypto/ed25519"
 	cryptocodec "github.com/cosmos/cosmos-sdk/crypto/codec"
 	sdk "github.com/cosmos/cosmos-sdk/types"
@@ -39,6 +40,7 @@ import (
 	evmtypes "github.com/palomachain/paloma/v2/x/evm/types"
 	schedulertypes "github.com/palomachain/paloma/v2/x/scheduler/types"
 	treasurytypes "github.com/palomachain/paloma/v2/x/treasury/types"
+	valsetmodule "github.com/palomachain/paloma/v2/x/valset"
 	valsettypes "github.com/palomachain/paloma/v2/x/valset/types"
 )
 
@@ -570,6 +572,7 @@ type env struct {
 	known   map[uint64]rsnapObs        // last observation of every stored snapshot
 	raw     map[uint64][]byte          // every stored snapshot as first seen: all fields but Chains, protobuf bytes
 	lastID  uint64
+	lastCtr uint64 // the snapshot id counter as last read from the raw store
 	tb      *stab
 }
 
@@ -578,6 +581,28 @@ type rsnapObs struct {
 	Vals   []rval
 	Total  *big.Int
 	Chains []string
+}
+
+// counter reads the snapshot id counter straight from the valset store (prefix "IDs", key
+// "generated-ids-snapshot-id", 8 bytes big endian): (value, present).
+func (e *env) counter() (uint64, bool) {
+	cms, ok := e.in.Ctx.MultiStore().(storetypes.CommitMultiStore)
+	if !ok {
+		return 0, false
+	}
+	key := cms.StoreKeysByName()[valsettypes.StoreKey]
+	if key == nil {
+		return 0, false
+	}
+	bz := e.ctx.KVStore(key).Get([]byte("IDs" + "generated-ids-" + "snapshot-id"))
+	if len(bz) != 8 {
+		return 0, false
+	}
+	var v uint64
+	for _, b := range bz {
+		v = v<<8 | uint64(b)
+	}
+	return v, true
 }
 
 func valIdx(a sdk.ValAddress) int { return int(a[18])<<8 | int(a[19]) }
@@ -941,6 +966,16 @@ func (e *env) observe(run *emit.Run, a *addrReg, hist *[]string, sent []sentMsg)
 	if cur != nil {
 		curID = cur.Id
 	}
+	// the id counter itself, read from the raw store after EVERY operation: never below a stored id,
+	// never decreasing, never gone once issued
+	ctr, present := e.counter()
+	if top > 0 && (!present || ctr < top) {
+		run.Violate("C10:counter-below-stored-id", fmt.Sprintf("snapshot id counter is %d (present=%v) but snapshot %d is stored: the next build re-issues a used id", ctr, present, top), replay())
+	}
+	if ctr < e.lastCtr {
+		run.Violate("C10:counter-decreased", fmt.Sprintf("snapshot id counter went from %d to %d (present=%v)", e.lastCtr, ctr, present), replay())
+	}
+	e.lastCtr = ctr
 	if curID != top {
 		run.Violate("C10:current-not-max-id", fmt.Sprintf("current snapshot id %d, highest stored id %d", curID, top), replay())
 	}
@@ -1109,6 +1144,48 @@ func fmtInfos(infos []rinfo) string {
 		out[k] = fmt.Sprintf("{type %q ref %q addr #%d traits %q}", i.Type, i.Ref, i.Addr, i.Traits)
 	}
 	return "[" + strings.Join(out, " ") + "]"
+}
+
+// recordStaking records the staking state as it is now (after an operation that changed it through
+// the keepers) as a staking step of the history.
+func (h *hist) recordStaking(tag string) {
+	svs := h.e.staking()
+	s := make([]string, len(svs))
+	for k, v := range svs {
+		s[k] = emit.Pair(emit.ZI(int64(v.Val)), emit.Bool(v.Bonded), emit.Bool(v.Jailed), emit.Z(v.Tokens))
+	}
+	h.log = append(h.log, fmt.Sprintf("%s: staking now %v", tag, s))
+	h.record("C10.HStaking "+emit.List(s), h.e.newSent(h.a))
+}
+
+// jail jails validator i THROUGH the valset keeper (Keeper.Jail: slashing + staking jail, jail log,
+// jail reason), as a missed keep-alive or a failed attestation would; for the snapshot model this is a
+// staking change.
+func (h *hist) jail(i int) bool {
+	var err error
+	func() {
+		defer func() {
+			if p := recover(); p != nil {
+				err = fmt.Errorf("panic: %v", p)
+			}
+		}()
+		err = h.e.in.ValsetKeeper.Jail(h.e.ctx, valAddr(i), "verif")
+	}()
+	h.run.Count("op", fmt.Sprintf("keeper-jail ok=%v", err == nil))
+	h.recordStaking(fmt.Sprintf("valset.Jail v%d -> %v", i, err == nil))
+	return err == nil
+}
+
+// endBlock runs the valset module's end blocker at a height where it only sweeps for validators
+// without a keep-alive (height > 50, multiple of 10, no multiple of 50: no snapshot build inside).
+func (h *hist) endBlock(height int64) {
+	e := h.e
+	func() {
+		defer func() { _ = recover() }()
+		_ = valsetmodule.NewAppModule(e.in.Codec, e.in.ValsetKeeper, nil, nil).EndBlock(e.ctx.WithBlockHeight(height))
+	}()
+	h.run.Count("op", "valset-endblock")
+	h.recordStaking(fmt.Sprintf("valset EndBlock height %d", height))
 }
 
 func (h *hist) register(i int, infos []rinfo) bool {
@@ -1420,6 +1497,31 @@ func deployGateHistory(t *testing.T, run *emit.Run, a *addrReg, next *int64) {
 	h.finish(true)
 }
 
+// keeperJailHistory: validators jailed through the valset keeper (not merely marked in staking) and by
+// the end blocker's liveness sweep; whatever Keeper.Jail writes or prunes, the snapshot id counter and
+// the stored snapshots must survive: ids keep increasing, the current snapshot stays the highest id.
+func keeperJailHistory(t *testing.T, run *emit.Run, a *addrReg, next *int64) {
+	n0 := chainName(0)
+	h := newHist(t, run, a, next, []string{n0})
+	h.e.nvals = 6
+	h.addChain(n0)
+	h.activateChain(n0)
+	h.stakingSet(equalStake(6, 4_000_000))
+	for i := 0; i < 6; i++ {
+		h.register(i, []rinfo{h.acct("evm", n0)})
+	}
+	h.build() // snapshot 1
+	ok1 := h.jail(5)
+	h.build() // snapshot 2 (one member less)
+	ok2 := h.jail(4)
+	h.build()      // snapshot 3
+	h.endBlock(60) // nobody sent a keep-alive: the sweep jails whom it may
+	h.build()      // snapshot 4
+	h.setOnChain(1, n0)
+	run.Count("directed", fmt.Sprintf("keeper-jail ok=%v,%v stored=%d", ok1, ok2, h.stored))
+	h.finish(true)
+}
+
 // worthyBoundaryHistory walks isNewSnapshotWorthy's branches on the real keeper: the 1 % float test
 // one raw decimal unit below and exactly at the boundary, a flipped ranking, traits added /
 // permuted / replaced, a re-spelt chain type, accounts added and re-ordered.  Whether each build is
@@ -1676,7 +1778,11 @@ func doHistory(t *testing.T, run *emit.Run, a *addrReg, r *rand.Rand, next *int6
 		if deploys && k == nops/3 {
 			h.compass()
 		}
-		switch x := r.Intn(25); {
+		switch x := r.Intn(28); {
+		case x >= 26:
+			h.jail(r.Intn(e.nvals))
+		case x == 25:
+			h.endBlock(60 + 10*int64(r.Intn(4)))
 		case x >= 23:
 			nudgeOp()
 		case x >= 21:
@@ -1766,6 +1872,7 @@ func TestCorr(t *testing.T) {
 	worthyBoundaryHistory(t, run, a, &next)
 	jitGateHistory(t, run, a, &next)
 	deployGateHistory(t, run, a, &next)
+	keeperJailHistory(t, run, a, &next)
 	nHist := run.N / 5
 	nTr := run.N - nHist
 	for i := 0; i < nTr; i++ {
